@@ -211,6 +211,33 @@ func c15Sequence(c *mon.Ctx, seq []int, r *mon.Rand, enumerated bool) {
 				case opOnePast:
 					p = bytes.Repeat([]byte{0xCD}, thriftudp.MaxLength-len(spec.buf)+1)
 				}
+				// the bytes that reach (or cross) the limit arrive through Write,
+				// WriteString or WriteByte, depending on the position in the sequence
+				variant := (i + len(seq)) % 3
+				if op != opSmall && variant != 0 && len(p) > 16 {
+					head := p[:len(p)-8]
+					if variant == 2 {
+						head = p[:len(p)-1]
+					}
+					_, err := tr.Write(head)
+					sr := spec.write(head)
+					if !sr && spec.open {
+						errInMsg = true
+					}
+					step(i, opNames[op]+"/head", err, sr, stale.write(head), !spec.open)
+					tail := p[len(head):]
+					if variant == 1 {
+						_, err = tr.WriteString(string(tail))
+					} else {
+						err = tr.WriteByte(tail[0])
+					}
+					sr = spec.write(tail)
+					if !sr && spec.open {
+						errInMsg = true
+					}
+					step(i, opNames[op]+[]string{"", "/tail-WriteString", "/tail-WriteByte"}[variant], err, sr, stale.write(tail), !spec.open)
+					continue
+				}
 				n, err := tr.Write(p)
 				if err == nil && n != len(p) {
 					c.Violation("short-write", map[string]interface{}{"why": fmt.Sprintf("step %d Write of %d bytes returned %d, nil", i, len(p), n), "case": desc})
@@ -339,6 +366,19 @@ func c15Multi(c *mon.Ctx, r *mon.Rand) {
 	// one third of the runs: one more destination is a dead port (every second
 	// send to it fails). The live destinations must still receive every message
 	// complete and alone, however much is sent after the first failure.
+	// a quarter of the runs list one live destination twice (merged configuration
+	// lists do): it is a destination like any other and receives every message
+	// once per listing
+	copies := make([]int, n)
+	for i := range copies {
+		copies[i] = 1
+	}
+	if r.Chance(1, 4) {
+		k := r.Intn(n)
+		copies[k]++
+		addrs = append(addrs, addrs[k])
+		c.Class("multi-runs-with-a-destination-listed-twice", 1)
+	}
 	dead := r.Chance(1, 3)
 	if dead {
 		at := r.Intn(len(addrs) + 1)
@@ -353,7 +393,7 @@ func c15Multi(c *mon.Ctx, r *mon.Rand) {
 	c.Eval(1)
 	var want [][]byte
 	var cur []byte
-	desc := map[string]interface{}{"destinations": n, "plus_one_dead_destination": dead}
+	desc := map[string]interface{}{"destinations": n, "listings_per_destination": copies, "plus_one_dead_destination": dead}
 	c.Guard("panic-multi-transport", func() interface{} { return desc }, func() {
 		k := r.Range(1, 20)
 		if dead {
@@ -394,6 +434,16 @@ func c15Multi(c *mon.Ctx, r *mon.Rand) {
 		}
 	})
 	for i, s := range sinks {
+		wantHere := want
+		if copies[i] > 1 {
+			wantHere = nil
+			for _, m := range want {
+				for k := 0; k < copies[i]; k++ {
+					wantHere = append(wantHere, m)
+				}
+			}
+		}
+		want := wantHere
 		if !s.WaitFor(len(want), 10*time.Second) && s.Drops() != 0 {
 			c.Inconclusive("kernel dropped datagrams at the sink")
 			return
